@@ -135,6 +135,18 @@ fn programs(env: &mc::refcond::Env, thorough: bool) -> Vec<Prog> {
             GSpend::identity(P1, 8, Sx::nil()),
         ],
     );
+    // resource accounting of the helpers: thousands of free conditions around a few outputs, and as
+    // many outputs as a block can pay for (each helper has its own cost bookkeeping; on a block that
+    // full validation accepts none of them may run out of budget)
+    {
+        let mut conds: Vec<Sx> = (0..9000).map(|_| drive::cond(1, &[])).collect();
+        conds.insert(0, drive::cond(51, &[Sx::atom(&PH2), Sx::int(1), Sx::list(&[Sx::atom(&H1)])]));
+        conds.insert(4500, drive::cond(51, &[Sx::atom(&PH2), Sx::int(2)]));
+        conds.push(drive::cond(51, &[Sx::atom(&H1), Sx::int(3), Sx::list(&[Sx::atom(&H2)])]));
+        add("many-remarks".into(), vec![GSpend::identity(P1, 100, Sx::list(&conds))]);
+        let ccs: Vec<Sx> = (0..4000u64).map(|i| drive::cond(51, &[Sx::atom(&PH2), Sx::int(i + 1)])).collect();
+        add("many-creates".into(), vec![GSpend::identity(P1, u64::MAX, Sx::list(&ccs))]);
+    }
     // ephemeral chain
     let a_id = drive::coin_id(&P1, &phi, 5);
     add("ephemeral".into(), vec![GSpend::identity(P1, 5, Sx::list(&[drive::cond(51, &[Sx::atom(&phi), Sx::int(3), Sx::list(&[Sx::atom(&H1)])])])), GSpend::identity(a_id, 3, Sx::list(&[drive::cond(76, &[])]))]);
@@ -172,7 +184,10 @@ fn check(p: &Prog, flags: ConsensusFlags, buckets: &mut BTreeMap<String, u64>) -
     let sig = Signature::default();
     let full = match run_gen2(&p.bytes, &p.refs, MAX_BLOCK, flags, &sig, constants) {
         Ok(f) => f,
-        Err(_) => {
+        Err(e) => {
+            if std::env::var_os("MC_C09_SHOW_REJECTED").is_some() {
+                eprintln!("rejected: {} flags {:?}: {e:?}", p.name, flags);
+            }
             *buckets.entry("generator-rejected-by-full-validation".into()).or_insert(0) += 1;
             return Ok(false);
         }
@@ -302,7 +317,7 @@ fn check(p: &Prog, flags: ConsensusFlags, buckets: &mut BTreeMap<String, u64>) -
             return Err(("SpendBundle::additions/differs".into(), format!("validated {want:?}\nadditions() {got:?}")));
         }
     }
-    *buckets.entry(format!("agree/spends{}/outputs{}", want_rem.len().min(3), want_add.len().min(4))).or_insert(0) += 1;
+    *buckets.entry(format!("agree/spends{}/outputs{}", want_rem.len().min(3), match want_add.len() { n @ 0..=4 => n.to_string(), 5..=99 => "5-99".to_string(), _ => "100+".to_string() })).or_insert(0) += 1;
     Ok(true)
 }
 
@@ -310,7 +325,7 @@ fn run(rep: &Report) {
     let env = drive::env();
     let thorough = rep.tier == mc::Tier::Thorough;
     let progs = programs(&env, thorough);
-    rep.set_rule("generators: CREATE_COIN with 11 memo shapes x all 23 length-class boundary amounts on a 2^64-1 coin; every ordered pair of interaction letters on one spend (quick: pairs involving a CREATE_COIN letter); 23 spent-coin amounts; every interaction letter alone and in a two-spend block with hinted outputs; a 7-condition spend mixing hinted / unhinted / unknown-opcode conditions; an ephemeral chain; spend-level extra field; output extension; two procedural generators (one reading a block reference); each plainly serialised and back-reference compressed; flags {none, COST_CONDITIONS, MEMPOOL_MODE}. thorough adds the recorded generators of /repo/generator-tests below 400 kB. Only generators accepted by run_block_generator2 are compared. distinct = distinct generator byte strings");
+    rep.set_rule("generators: CREATE_COIN with 11 memo shapes x all 23 length-class boundary amounts on a 2^64-1 coin; every ordered pair of interaction letters on one spend (quick: pairs involving a CREATE_COIN letter); 23 spent-coin amounts; every interaction letter alone and in a two-spend block with hinted outputs; a 7-condition spend mixing hinted / unhinted / unknown-opcode conditions; 9000 REMARKs around 3 outputs and 4000 outputs on one spend (the helpers' own cost bookkeeping); an ephemeral chain; spend-level extra field; output extension; two procedural generators (one reading a block reference); each plainly serialised and back-reference compressed; flags {none, COST_CONDITIONS, MEMPOOL_MODE}. thorough adds the recorded generators of /repo/generator-tests below 400 kB. Only generators accepted by run_block_generator2 are compared. distinct = distinct generator byte strings");
     rep.assume("additions compared as sorted multisets of (parent id, puzzle hash, amount, hint); hint absent and hint = nil are the same observation on the validated side");
     let mut progs = progs;
     if thorough {
